@@ -109,7 +109,7 @@ impl World {
     fn establish(&mut self) {
         let c = self.conns.len() + 1;
         let addr: Multiaddr = format!("/ip4/10.0.0.{}/tcp/{}", c, 30000 + c).parse().unwrap();
-        let r = self.h.establish(self.peer, c, c % 2 == 0, addr);
+        let r = self.h.establish(self.peer, c, c % 2 == 0, addr, None);
         self.conns.push(c);
         for q in 0..NAMES.len() {
             self.poll_all(q);
